@@ -1,7 +1,7 @@
 """C01 - base and extension field arithmetic is exact and canonical."""
 ID = "C01"
 GEN_TAGS = ["BFieldGen", "XFieldGen"]
-PROOF_TARGETS = ["proofs/BFieldProofs.vo", "proofs/BFieldLoops.vo", "proofs/XFieldProofs.vo", "proofs/XFieldIrred.vo", "proofs/BatchInvProofs.vo", "proofs/XFieldGenProofs.vo"]
+PROOF_TARGETS = ["proofs/BFieldProofs.vo", "proofs/BFieldLoops.vo", "proofs/XFieldProofs.vo", "proofs/XFieldIrred.vo", "proofs/BatchInvProofs.vo", "proofs/XFieldGenProofs.vo", "proofs/XFieldOk.vo"]
 PROPS_FILE = "props/C01.v"
 EXTRACT = "extract/ExtractC01.vo"
 ORACLE = ("gen_c01", "c01.ml")
